@@ -218,6 +218,14 @@ func (f *Interface) handleOutsideRelayPacket(hostinfo *HostInfo, via ViaSender, 
 		}
 		f.readOutsidePackets(via, signedPayload, rxc)
 	case ForwardingType:
+		// relay.am_relay can be turned off by a reload; relays negotiated before that must stop forwarding
+		if !f.relayManager.GetAmRelay() {
+			if f.l.Enabled(context.Background(), slog.LevelDebug) {
+				hostinfo.logger(f.l).Debug("dropping relayed packet, relay.am_relay is disabled", "relayTo", relay.PeerAddr)
+			}
+			return
+		}
+
 		// Find the target HostInfo relay object
 		targetHI, targetRelay, err := f.hostMap.QueryVpnAddrsRelayFor(hostinfo.vpnAddrs, relay.PeerAddr)
 		if err != nil {
